@@ -629,6 +629,13 @@ where
                 set_current_route_locale(locale);
                 StaticSegment(locale.as_str())
                     .test(path)
+                    // `StaticSegment` can stop in the middle of a segment ("/french" is not "/fr" + "ench")
+                    // or one character short ("/fi/x" is not "/fil" + "/x"): keep whole segment matches only.
+                    .filter(|partial_path_match| {
+                        let remaining = partial_path_match.remaining();
+                        partial_path_match.matched().trim_start_matches('/') == locale.as_str()
+                            && (remaining.is_empty() || remaining.starts_with('/'))
+                    })
                     .and_then(|partial_path_match| {
                         let remaining = partial_path_match.remaining();
                         let matched = partial_path_match.matched();
